@@ -260,7 +260,15 @@ func (ex *Exec) jPath(st *State, v *Term, keys Value) *Term {
 		panic(unsupported("fastjson Get with symbolic number of keys"))
 	}
 	for i := int64(0); i < n; i++ {
-		v = jGet(v, ex.readElem(st, ks, IntLit(i)).(*Term))
+		k := ex.readElem(st, ks, IntLit(i)).(*Term)
+		ex.jgetLog = append(ex.jgetLog, [2]*Term{v, k})
+		if ex.jdocLookup != nil && v == ex.jdocRoot {
+			if name, ok := k.StrVal(); ok {
+				v = ex.jdocLookup(name)
+				continue
+			}
+		}
+		v = jGet(v, k)
 	}
 	return v
 }
@@ -310,7 +318,22 @@ func init() {
 		return Neq(ex.jPath(st, a[0].(*Term), a[1]), jvNil)
 	}
 	externals[pre+"GetStringBytes"] = func(ex *Exec, st *State, a []Value, x *ssa.Call) Value {
-		return jStr(ex.jPath(st, a[0].(*Term), a[1]))
+		return ex.known(jStr(ex.jPath(st, a[0].(*Term), a[1])))
+	}
+	// RFC 3339 text of an instant parses back to that instant (assumed pair Time.Format(RFC3339)/UnmarshalText)
+	externals["(*time.Time).UnmarshalText"] = func(ex *Exec, st *State, a []Value, x *ssa.Call) Value {
+		data := a[1].(*Term)
+		t := App("rfc3339.parse", STime, data)
+		e := App("rfc3339.err", SErr, data)
+		p := a[0].(*PtrVal)
+		old := ex.load(st, p, nil, x.Pos())
+		if ot, ok := old.(*Term); ok {
+			ex.store(st, p, Ite(Eq(e, ErrNil), t, ot), x.Pos())
+		}
+		return e
+	}
+	externals["(time.Time).Format"] = func(ex *Exec, st *State, a []Value, x *ssa.Call) Value {
+		return B2S(App("time.format", SBytes, a[0].(*Term), a[1].(*Term)))
 	}
 	externals[pre+"Type"] = func(ex *Exec, st *State, a []Value, x *ssa.Call) Value {
 		v := a[0].(*Term)
